@@ -9,3 +9,10 @@ open Mud.C04
 #print axioms hop_event_fields
 #print axioms Mud.C01.hop_rejected_noop
 #print axioms Mud.C01.hop_energy_exact
+#print axioms run_length
+#print axioms run_head
+#print axioms active_step
+#print axioms event_sound
+#print axioms event_complete
+#print axioms event_steps_increasing
+#print axioms event_counts
